@@ -41,6 +41,11 @@ string error_handler (mapping m, int caught) {
 }
 
 
+// preload: `do m preload,<path>` - the driver's preload_objects() asks epilog() for the list and calls preload() for each
+// file: the master then loads it (an ordinary, logged load op of the master)
+string *epilog (int eflag) { return REG->take_preloads (); }
+void preload (string file) { run_op ("load," + file); }
+
 void set_pol (string kind, string a, string b, string c) {
   mapping m;
   if (kind == "root" || kind == "bb") { REG->set_uid_name (kind, a); return; }
